@@ -162,9 +162,9 @@ def check(prop, tier, seed, a):
 
 def match_finding(findings, name, rep):
     for f in findings:
-        pat = f.get("obligation")
-        if pat and (pat == name or (pat.endswith("*") and name.startswith(pat[:-1]))):
-            return f
+        for pat in ([f["obligation"]] if f.get("obligation") else []) + list(f.get("obligations", [])):
+            if pat == name or (pat.endswith("*") and name.startswith(pat[:-1])):
+                return f
     return None
 
 
